@@ -177,6 +177,37 @@ func (s *State) mapGet(h *mapHandle, key string) *V {
 	return s.readAt(h.fam+"#val", []string{h.ref, key}, h.vt)
 }
 
+// mapZeroAxiom: absent keys read as the zero value (well-formedness of map components: maintained by every
+// write/delete of the executor and assumed for the component versions in scope).
+func (s *State) mapZeroAxiom(h *mapHandle) {
+	type lf struct{ leaf, sort, zero string }
+	var leafs []lf
+	if h.sync {
+		leafs = []lf{{h.fam + "#val", "Int", "0"}, {h.fam + "#vtag", "Int", "0"}}
+	} else {
+		switch s.run.eng.shape(h.vt) {
+		case KInt:
+			leafs = []lf{{h.fam + "#val", "Int", "0"}}
+		case KBool:
+			leafs = []lf{{h.fam + "#val", "Bool", "false"}}
+		case KIface:
+			leafs = []lf{{h.fam + "#val#tag", "Int", "0"}, {h.fam + "#val#val", "Int", "0"}}
+		case KSlice:
+			leafs = []lf{{h.fam + "#val#arr", "Int", "0"}, {h.fam + "#val#off", "Int", "0"}, {h.fam + "#val#len", "Int", "0"}, {h.fam + "#val#cap", "Int", "0"}}
+		}
+	}
+	dom := s.comp(h.fam+"#dom", 2, "Bool")
+	for _, l := range leafs {
+		val := s.comp(l.leaf, 2, l.sort)
+		key := dom + "/" + val
+		if s.mapAx[key] {
+			continue
+		}
+		s.mapAx[key] = true
+		s.assume("(forall ((m Int) (k Int)) (! (=> (not (select (select " + dom + " m) k)) (= (select (select " + val + " m) k) " + l.zero + ")) :pattern ((select (select " + val + " m) k))))")
+	}
+}
+
 func (c *EvalCtx) eval(e *Expr) *V {
 	st := c.st
 	eng := c.run.eng
@@ -223,9 +254,8 @@ func (c *EvalCtx) eval(e *Expr) *V {
 		case base.K == KMapH || (base.K == KInt && isMapType(base.T)):
 			h := c.mapHandleOf(base, e)
 			k := c.keyTerm(c.coerceTo(idx, h.kt), e)
-			v := st.mapGet(h, k)
-			z := st.zero(h.vt)
-			return c.iteV(st.mapHas(h, k), v, z)
+			st.mapZeroAxiom(h)
+			return st.mapGet(h, k)
 		case base.K == KInt && base.Fn == nil && base.T != nil && isArrSort(base):
 			return nil
 		}
@@ -747,6 +777,34 @@ func (c *EvalCtx) evalCall(e *Expr) *V {
 			k = "callfn:" + strings.TrimPrefix(e.Args[0].Str, "fn:")
 		}
 		return vInt(sSel(st.comp("ncall", 1, "Int"), eng.strID(k)), types.Typ[types.Int])
+	case "callsOn":
+		// callsOn("Iface.Method", recv): invocations of the method on that receiver value so far
+		argc(2)
+		{
+			if e.Args[0].Op != "str" {
+				c.fail("callsOn(\"Iface.Method\", recv)")
+			}
+			nm := e.Args[0].Str
+			if strings.Count(nm, ".") == 1 {
+				nm = c.pkg.Name() + "." + nm
+			}
+			a := c.eval(e.Args[1])
+			if a.K != KIface {
+				c.fail("callsOn expects an interface receiver")
+			}
+			return vInt(selN(st.comp("ncallr", 2, "Int"), []string{eng.strID("call:" + nm), a.Val}), types.Typ[types.Int])
+		}
+	case "visited":
+		// visited(k): key k has already been produced by the map range loop this invariant belongs to
+		argc(1)
+		{
+			it, ok := c.vars["$iter"]
+			if !ok {
+				c.fail("visited() used outside a map range loop invariant")
+			}
+			k := c.eval(e.Args[0])
+			return vBool(selN(st.comp("iter#visited", 2, "Bool"), []string{it.S, c.keyTerm(k, e.Args[0])}))
+		}
 	case "received":
 		// received(ch): number of values successfully received from channel ch by this activation tree
 		argc(1)
@@ -781,6 +839,24 @@ func (c *EvalCtx) evalCall(e *Expr) *V {
 			}
 			eng.declare("(declare-fun ctxerr (Int) Int)")
 			return &V{K: KIface, T: types.Universe.Lookup("error").Type(), Tag: eng.typeIDByName("errtype:context"), Val: "(ctxerr " + a.Val + ")"}
+		}
+	case "held_errors":
+		// held_errors(p): how many errors the *multierror.Error p holds (ghost of the library model)
+		argc(1)
+		return vInt(sSel(st.comp("multierror#n", 1, "Int"), c.intOf(e.Args[0])), types.Typ[types.Int])
+	case "errOf":
+		// errOf(tag, val): the error value with that dynamic type tag and payload
+		argc(2)
+		return &V{K: KIface, T: types.Universe.Lookup("error").Type(), Tag: c.intOf(e.Args[0]), Val: c.intOf(e.Args[1])}
+	case "asIface":
+		// asIface(p): the interface value holding the (pointer) value p
+		argc(1)
+		{
+			a := c.eval(e.Args[0])
+			if a.K != KInt || a.T == nil {
+				c.fail("asIface expects a typed pointer value")
+			}
+			return &V{K: KIface, T: types.Universe.Lookup("error").Type(), Tag: eng.typeID(a.T), Val: a.S}
 		}
 	case "tagof":
 		argc(1)
